@@ -199,6 +199,52 @@ impl RefRule {
         }
     }
 }
+/// The semantic content of a `Debug` rendering of a zone: numbers, quoted strings, booleans and the variant names that
+/// carry meaning, in order. Field labels, struct names, wrapper names and punctuation are dropped, so that the
+/// comparison with the reference rendering does not pin the *formatting* of chrono's internal types.
+pub fn canon_debug(s: &str) -> Vec<String> {
+    const KEEP: [&str; 9] = ["None", "Some", "Fixed", "Alternate", "Julian1WithoutLeap", "Julian0WithLeap", "MonthWeekday", "true", "false"];
+    let b: Vec<char> = s.chars().collect();
+    let mut out = vec![];
+    let mut i = 0;
+    while i < b.len() {
+        let c = b[i];
+        if c == '"' {
+            let mut j = i + 1;
+            let mut t = String::new();
+            while j < b.len() && b[j] != '"' {
+                if b[j] == '\\' && j + 1 < b.len() {
+                    j += 1;
+                }
+                t.push(b[j]);
+                j += 1;
+            }
+            out.push(format!("\"{}\"", t));
+            i = j + 1;
+        } else if c.is_ascii_digit() || (c == '-' && i + 1 < b.len() && b[i + 1].is_ascii_digit()) {
+            let mut j = i + 1;
+            while j < b.len() && b[j].is_ascii_digit() {
+                j += 1;
+            }
+            out.push(b[i..j].iter().collect());
+            i = j;
+        } else if c.is_alphabetic() || c == '_' {
+            let mut j = i;
+            while j < b.len() && (b[j].is_alphanumeric() || b[j] == '_') {
+                j += 1;
+            }
+            let w: String = b[i..j].iter().collect();
+            if KEEP.contains(&w.as_str()) {
+                out.push(w);
+            }
+            i = j;
+        } else {
+            i += 1;
+        }
+    }
+    out
+}
+
 impl RefZone {
     pub fn debug_string(&self) -> String {
         let tr: Vec<String> = self.trans.iter().map(|(t, i)| format!("Transition {{ unix_leap_time: {}, local_time_type_index: {} }}", t, i)).collect();
@@ -525,6 +571,8 @@ pub enum Reject {
     Truncated,
     BadMagic,
     BadVersion,
+    /// version byte '4' (RFC 9636, later than the versions 1-3 the statement speaks of): a reader may reject it or read it
+    LaterVersion,
     BadHeaderCounts,
     TypeIndexOutOfBounds,
     AbbrIndexOutOfBounds,
@@ -574,6 +622,7 @@ fn header(r: &mut Rd) -> Result<Hdr, Reject> {
         0 => 1,
         b'2' => 2,
         b'3' => 3,
+        b'4' => return Err(Reject::LaterVersion),
         _ => return Err(Reject::BadVersion),
     };
     r.take(15)?;
